@@ -170,13 +170,13 @@ func c12CallClass(err error) string {
 }
 
 type c12CallOut struct {
-	req, rep       []c12Op
-	errp           [][]c12Op
-	sent           bool
-	sentBytes      []byte
-	replyLen       int
-	res            string
-	err            error
+	req, rep  []c12Op
+	errp      [][]c12Op
+	sent      bool
+	sentBytes []byte
+	replyLen  int
+	res       string
+	err       error
 }
 
 // c12RealCall performs one Call on the real client/server code.
@@ -268,11 +268,11 @@ func c12YN(b bool) string {
 }
 
 type c12CallParams struct {
-	kind, proto      string
-	args, result     *c12Shape
-	reqHdr, respHdr  int
-	qlimit, rlimit   uint
-	whereQ, whereR   string
+	kind, proto     string
+	args, result    *c12Shape
+	reqHdr, respHdr int
+	qlimit, rlimit  uint
+	whereQ, whereR  string
 }
 
 // tail: the generating parameters, carried on the line so that it can be re-run
